@@ -31,6 +31,19 @@ Theorem C35_framed_blocks_in_buffer : forall vec off size b e,
 Proof. exact shift_in_frame. Qed.
 Print Assumptions C35_framed_blocks_in_buffer.
 
+(* end to end: between two SMPI_PARTIAL_SHARED_MALLOC allocations, exactly the message bytes that are outside the
+   shared blocks of both allocations must be transferred *)
+Theorem C35_end_to_end : forall ssize sshared dsize dshared soff doff size x,
+  0 <= soff -> 0 <= doff -> 0 <= size -> 0 <= ssize -> 0 <= dsize ->
+  sorted sshared -> sorted dshared ->
+  (forall b e, In (b, e) sshared -> 0 <= b /\ e <= ssize) ->
+  (forall b e, In (b, e) dshared -> 0 <= b /\ e <= dsize) ->
+  (covered (e2e ssize sshared dsize dshared soff doff size) x <->
+   0 <= x < size /\ (0 <= x + soff < ssize /\ ~ covered sshared (x + soff))
+                 /\ (0 <= x + doff < dsize /\ ~ covered dshared (x + doff))).
+Proof. exact e2e_spec. Qed.
+Print Assumptions C35_end_to_end.
+
 (* the function as pinned (unsigned underflow) violates the statement: the witness is the replay of the finding *)
 Theorem C35_pinned_code_refuted :
   exists vec off size x, 0 <= x < size /\ covered_b vec (x + off) = true /\ covered_b (shift_orig vec off size) x = false.
